@@ -176,6 +176,9 @@ def run(ctx):
     from .C12 import shape_transform_obligations
     from .C12 import ALL_SHAPES
     shape_transform_obligations(ctx, 'SHAPE', ALL_SHAPES[2:])
+    # what is summed: the pair law and the sum over particle pairs (C13 R1-R3, R5; R4, the known asymmetry finding, stays C13's)
+    from .common import import_obligations
+    import_obligations(ctx, 'C13', 'PAIR', only_rules={'R1', 'R2', 'R3', 'R5'}, floor=10)
     ts = f.one(self_adt=ADT, trait='State', name='total_shapes')
     if rep.check(ts is not None, 'R1', 'anchor:total_shapes', ADT, 'found', 'total_shapes not found', 'anchor-lost'):
         ok, why = total_shapes_is_sum_of_multiplicities(f, ts)
